@@ -406,6 +406,9 @@ def explore(ctx):
         add(_case('iso', ['T', 'CH4'], {'CH4': 'uniform'}, ghost=g))
         add(_case('iso', ['T', 'CH4', 'obs_offset'], None, ghost=g))
     # observation: layout x errors x value
+    for err in ('tiny', 'huge'):
+        add(_case('iso', ['T', 'H2O'], None, '3col-nonuniform', err, 'offset'))
+        add(_case('iso', ['T', 'H2O'], None, '4col-gaps', err, 'offset'))
     for lay, err, ov in itertools.product(dr.LAYOUTS, ['distinct', 'constant'], ['offset', 'exact']):
         add(_case('iso', ['T', 'H2O'], None, lay, err, ov))
         if not quick:
